@@ -61,4 +61,13 @@ theorem unmatched_mode_bridge (ext : Py.Ext) (e : Py.Env) (m : Option String) (e
       have hi : ((-1 : Int) < (i : Int)) := by omega
       md_norm
 
+theorem source_mode_bridge (ext : Py.Ext) (e : Py.Env) (m : Option String) (effs : List Py.Eff)
+    (h1 : e "self._source_mode" = .none) (h2 : e "self.controller.get(source-mode)" = optStr m) :
+    okV (Generated.Modes.SourceMode.value ext e effs) = some (.bool (sourceMode m)) := by
+  cases m with
+  | none => simp [py_core, py_norm, Py.H.cond, Py.H.letv, Py.H.ret, Py.H.setattr, Py.upd, optStr, okV, sourceMode, h1, h2]
+  | some s =>
+    by_cases hs : s = "preceding" <;>
+      simp [py_core, py_norm, Py.H.cond, Py.H.letv, Py.H.ret, Py.H.setattr, Py.upd, optStr, okV, sourceMode, h1, h2, hs]
+
 end Proofs.BridgeModes
